@@ -78,6 +78,42 @@ def _family(rng):
     raise RuntimeError
 
 
+def _family_nd(rng):
+    """Two masters at 0 and 10 on an axis 0..10: instance locations 1, 3, 7, 9 have NON-dyadic normalised coordinates.  Every
+    coordinate / advance / anchor / kerning / info value of the second master differs from the first by a multiple of 10, so
+    that each blend is exactly representable (the first master's value plus an integer).  The implementation computes in
+    binary floating point: its results are compared after snapping values within 1e-9 of a representable number (a deviation
+    of the location by 1/16384 moves them by >= 1e-4); geometry rounding is off for these families (no float-sensitive ties)."""
+    from ..absfont import PS
+
+    for _ in range(50):
+        base = gen.glyphset(rng, nmin=3, nmax=5, max_depth=2, anchors=True, unicodes=True)
+        for g in base.values():
+            g["h"] = 0
+        m1 = copy.deepcopy(base)
+        for g in m1.values():
+            for c in g["cs"]:
+                for p in c:
+                    p[0] += 10 * rng.randint(-6, 6) * PS
+                    p[1] += 10 * rng.randint(-6, 6) * PS
+            for c in g["comps"]:
+                c["d"][0] += 10 * rng.randint(-6, 6) * PS
+                c["d"][1] += 10 * rng.randint(-6, 6) * PS
+            for a in g["anchors"]:
+                a["x"] += 10 * rng.randint(-6, 6) * PS
+                a["y"] += 10 * rng.randint(-6, 6) * PS
+            g["w"] += 10 * rng.randint(0, 9) * PS
+        names = sorted(base)
+        kern = [list(x) for x in {(rng.choice(names), rng.choice(names)) for _k in range(rng.randint(1, 4))}]
+        k0 = [rng.randint(-60, 60) * 4 for _ in kern]
+        kvals = [k0, [v + 40 * rng.randint(-5, 5) for v in k0]]
+        i0 = {"ascender": rng.randint(700, 900), "xHeight": rng.randint(400, 600), "capHeight": rng.randint(600, 800)}
+        info = [i0, {a: v + 10 * rng.randint(-5, 5) for a, v in i0.items()}]
+        return {"locs": [0, 10], "default": 0, "masters": [base, m1], "kern": kern, "kvals": kvals, "info": info, "rules": [],
+                "groups": [], "axisMax": 10, "nd": True}
+    raise RuntimeError
+
+
 def cases(tier, seed):
     n = 60 if tier == "quick" else 800
     rng = random.Random(seed * 334214459 + 19)
@@ -87,6 +123,10 @@ def cases(tier, seed):
         locs = sorted(rng.sample(range(0, 9), rng.randint(2, 4)))
         out.append({"cid": f"c19-{seed}-{k}", "lib": rng.choice(["ufoLib2", "defcon"]), "fam": fam, "inst_locs": locs,
                     "round": rng.random() < 0.5})
+    rng2 = random.Random(seed * 334214459 + 190019)
+    for k in range(12 if tier == "quick" else 150):
+        out.append({"cid": f"c19-{seed}-nd{k}", "lib": rng2.choice(["ufoLib2", "defcon"]), "fam": _family_nd(rng2),
+                    "inst_locs": sorted(rng2.sample([0, 1, 3, 7, 9, 10], 3)), "round": False})
     return out
 
 
@@ -101,7 +141,8 @@ def _build(case):
                "groups": [list(g) for g in fam.get("groups", [])]}
         masters.append({"loc": {"Weight": fam["locs"][k]}, "ufo": ufo, "name": f"M{k}"})
     d = fam["locs"][fam["default"]]
-    family = {"axes": [{"name": "Weight", "tag": "wght", "min": 0, "default": d, "max": 8}], "masters": masters, "rules": fam["rules"]}
+    family = {"axes": [{"name": "Weight", "tag": "wght", "min": 0, "default": d, "max": fam.get("axisMax", 8)}], "masters": masters,
+              "rules": fam["rules"]}
     return dsbuild.build_designspace(family, case["lib"])
 
 
@@ -118,6 +159,31 @@ def _instance(ds, inst, loc):
 def _proj(font):
     gs = absfont.abs_glyphset({g.name: g for g in font})
     return gs
+
+
+def _snap(font):
+    """remove binary floating-point noise: a value within 1e-9 of a multiple of 1/4 becomes that multiple (in place)"""
+    def sn(v):
+        r = round(v * 4) / 4
+        return r if abs(v - r) < 1e-9 else v
+
+    for g in font:
+        g.width = sn(g.width)
+        for c in g:
+            for p in (c.points if hasattr(c, "points") else c):
+                p.x, p.y = sn(p.x), sn(p.y)
+        for c in g.components:
+            t = tuple(c.transformation)
+            c.transformation = tuple(sn(v) for v in t)
+        for a in g.anchors:
+            a.x, a.y = sn(a.x), sn(a.y)
+    for k_ in list(font.kerning.keys()):
+        font.kerning[k_] = sn(font.kerning[k_])
+    for a in ("ascender", "xHeight", "capHeight", "descender"):
+        v = getattr(font.info, a, None)
+        if v is not None:
+            setattr(font.info, a, sn(v))
+    return font
 
 
 def execute(case):
@@ -148,9 +214,16 @@ def execute(case):
     for loc in case["inst_locs"]:
         f = results[loc]
         again = _instance(ds, inst, loc)
+        if fam.get("nd"):
+            _snap(f), _snap(again), _snap(other[loc])
         try:
             gs = _proj(f)
         except absfont.Inexact as e:
+            if fam.get("nd"):
+                # by construction every blend of this family is a multiple of 1/2: a value that is not is not the blend
+                recs.append({"tid": f"{case['cid']}/{loc}", "err": "instance value is not the (representable) blend: " + str(e)[:100],
+                             "loc": loc, "locs": fam["locs"], "_sig": [case["cid"], loc]})
+                continue
             recs.append({"tid": f"{case['cid']}/{loc}", "skip": True, "why": str(e)})
             continue
         swaps = []
